@@ -109,6 +109,10 @@ theorem sint_rt (w : Nat) (i : Int) (h : sintInRange w i = true) :
 theorem packField_rt {f : SField} {a : Atom} {x : Bytes} (h : packField f a = .ok x) (hw : wfField f a = true) :
     x.length = f.size ∧ decodeField f x = a := by
   cases f <;> cases a <;> simp only [packField] at h <;> try (cases h; done)
+  case bool.nat => simp [wfField] at hw
+  case bool.int => simp [wfField] at hw
+  case bool.bytes => simp [wfField] at hw
+  case bool.float => simp [wfField] at hw
   case uint.nat w n =>
     obtain ⟨rfl, hn⟩ := packUint_ok h
     simp [SField.size, beEnc_length, decodeField, beDec_beEnc w n hn]
@@ -121,7 +125,7 @@ theorem packField_rt {f : SField} {a : Atom} {x : Bytes} (h : packField f a = .o
     · cases h
   case bool.bool b =>
     cases h
-    cases b <;> simp [SField.size, decodeField, beDec, beDecAux]
+    cases b <;> simp [SField.size, decodeField, beDec, beDecAux, truthy]
   case char.bytes b =>
     split at h
     · rename_i hl
@@ -380,5 +384,56 @@ theorem toList_ofList (l : List Val) : (ValList.ofList l).toList = l := by
   induction l with
   | nil => rfl
   | cons v vs ih => simp [ValList.toList, ValList.ofList, ih]
+
+/-! ### VariablePayload: attributes ↔ pack list -/
+
+open Old in
+theorem take8_eq {a : List Val} {bs : List Atom} {r : List Val} (h : take8 a = some (bs, r)) :
+    a = bs.map Val.atom ++ r := by
+  unfold take8 at h
+  split at h
+  · cases h; rfl
+  · cases h
+
+open Old in
+theorem flatten_cons_nonbits (f : Fmt) (fs : FmtList) (v : Val) (vs : ValList) (hf : f ≠ .bits) :
+    flatten (.cons f fs) (.cons v vs) = v :: flatten fs vs := by
+  cases f <;> first | (exact absurd rfl hf) | simp [flatten]
+
+open Old in
+theorem flatten_vpPack : (fs : FmtList) → (a pl : List Val) → Old.vpPack fs a = some pl →
+    flatten fs (ValList.ofList pl) = a
+  | .nil, a, pl, h => by
+    cases a with
+    | nil => simp [Old.vpPack] at h; subst h; simp [flatten, ValList.ofList]
+    | cons _ _ => simp [Old.vpPack] at h
+  | .cons f fs, a, pl, h => by
+    simp only [Old.vpPack] at h
+    by_cases hf : f = .bits
+    · subst hf
+      simp only [if_true] at h
+      cases ht : take8 a with
+      | none => simp [ht] at h
+      | some br =>
+        obtain ⟨bs, r⟩ := br
+        simp only [ht] at h
+        cases hr : Old.vpPack fs r with
+        | none => simp [hr] at h
+        | some pl' =>
+          simp [hr] at h
+          subst h
+          rw [take8_eq ht]
+          simp [ValList.ofList, flatten, flatten_vpPack fs r pl' hr]
+    · simp only [if_neg hf] at h
+      cases a with
+      | nil => simp at h
+      | cons v r =>
+        simp only at h
+        cases hr : Old.vpPack fs r with
+        | none => simp [hr] at h
+        | some pl' =>
+          simp [hr] at h
+          subst h
+          simp [ValList.ofList, flatten_cons_nonbits f fs v _ hf, flatten_vpPack fs r pl' hr]
 
 end Ipv8.C02
